@@ -90,4 +90,17 @@ var properties = map[string]*propDef{
 		RequiredProbes: []string{"delete_removed_samples", "gc_reclaimed_bytes", "delete_start_between_samples", "delete_end_between_samples", "delete_start_on_sample", "delete_end_on_sample", "index_delete_refused", "reopen"},
 		Units:          []unit{cesiumUnit("cesium-seq", "c04")},
 	},
+	"C02": {
+		Level: "fault_enumeration",
+		Rule: "cases are rapid-generated scripts (writes with always/lazy persistence, explicit commits, closes, time-range deletes, GC passes, reopen); for each script EVERY prefix of the recorded filesystem mutation log after channel creation is a crash point (when a log exceeds 500 points: all points within +-3 of a rename/truncate/remove/index write plus a seeded sample), plus torn variants of the crashing write (1 byte, half, all but one, one 26-byte pointer record in, one record short); evaluations counts scripts, coverage.crash_points counts recoveries; a script is non-trivial when it produced >=20 crash points; distinct = hash of (script shape, log length)",
+		Real:  cesiumReal,
+		Stub:  append([]string{"crash: disk image rebuilt from a prefix of the recorded mutation log (process-crash model: completed FS calls survive, nothing else; optionally a torn last write)"}, cesiumStub...),
+		Assumptions: []string{
+			"process-crash model as the property states (cesium never fsyncs; completed filesystem calls survive)",
+			"per channel, the recovered content must equal the reference content after some operation j with d <= j <= s, where d is the last operation that acknowledged persistence for that channel (auto-commit write with always-persist, explicit commit of a non-auto-commit writer, writer close, completed delete, database close) and s the last operation started before the crash; every returned value must have been written to that channel",
+			"scripts that trigger the recorded C04 known finding (delete bound inside a rolled-over domain) are skipped, since the store is corrupt before any crash",
+		},
+		RequiredProbes: []string{"crash_points", "rollover", "gc_rewrote_file"},
+		Units: []unit{func() unit { u := cesiumUnit("cesium-crash", "c02"); return u }()},
+	},
 }
